@@ -105,13 +105,13 @@ func doCall(ctx context.Context, x *harness.X, s *st, ch sendAPI, c *callRec) {
 	x.Obs("%s %s returns err=%v", c.role, c.what, c.err != nil)
 }
 
-func sendBody(kind string) func(x *harness.X) {
+func sendBody(kind string, ops []string) func(x *harness.X) {
 	return func(x *harness.X) {
 		lib.Reset()
 		s := &st{kind: kind}
 		x.Vars["st"] = s
 		s.teardown = []string{"client-finish", "server-finish", "server-fail"}[rt.Choose(3)]
-		whatC, whatS := whats[rt.Choose(len(whats))], whats[rt.Choose(len(whats))]
+		whatC, whatS := ops[rt.Choose(len(ops))], ops[rt.Choose(len(ops))]
 		gateC, gateS := rt.Choose(3), rt.Choose(3) // 0: from the start, 1: once established, 2: once torn down
 		buf := 1
 		if kind == "tcp" {
@@ -565,8 +565,9 @@ func main() {
 		Rule:     "send direction: teardown {client finish, server finish, server fail} x one send call per role from {SendMessage, SendNotification, SendRequestCommand, SendResponseCommand, ProcessCommand} x release stage per role {from the start, once established, once torn down} as data choices (675 combinations) over the in-process and TCP transports, all schedules within the deviation bound (delay bounding) from before the handshake; wire taps decode what was really written. After a peer-sent finished/failed on a connection the peer keeps open, each of the five send operations must fail and write nothing. Receive direction: each data envelope kind injected at each of 3 handshake positions against the real Server and the real ClientChannel; distinct outcome = distinct observation log",
 		Assume:   []string{"in-process transport has no wire: 'written' is approximated there by 'delivered to the peer application'", "calls that overlap a transition may linearise on either side (the statement does not say otherwise)"},
 		Scenarios: []harness.Scenario{
-			{Name: "send/tcp", Opt: opt, Quick: 1, Thorough: 2, Prune: false, Body: sendBody("tcp"), Final: sendFinal},
-			{Name: "send/inproc", Opt: opt, Quick: 1, Thorough: 1, Prune: false, Body: sendBody("inproc"), Final: sendFinal},
+			{Name: "send/tcp", Opt: opt, Quick: 1, Thorough: 1, Prune: false, Body: sendBody("tcp", whats), Final: sendFinal},
+			{Name: "send/inproc", Opt: opt, Quick: 1, Thorough: 1, Prune: false, Body: sendBody("inproc", whats), Final: sendFinal},
+			{Name: "send/tcp/2ops", Opt: opt, Quick: -1, Thorough: 2, Prune: false, Body: sendBody("tcp", []string{"SendMessage", "ProcessCommand"}), Final: sendFinal},
 			{Name: "receive/server", Opt: ropt, Quick: 0, Thorough: 1, Prune: false, Body: recvBody("server"), Final: recvFinal},
 			{Name: "receive/client", Opt: ropt, Quick: 0, Thorough: 1, Prune: false, Body: recvBody("client"), Final: recvFinal},
 			{Name: "send/client-after-peer-ended-session", Opt: ropt, Quick: 0, Thorough: 1, Prune: false, Body: afterTerminalBody, Final: afterTerminalFinal},
